@@ -188,23 +188,6 @@ theorem finalEntry_eq (exp k : Int) (e0 : Spec.C17.Entry) (execs : List Spec.C17
 def foldSets (E : Int) (cell : Cell) (T : List (Nat × Int × Int)) : Cell :=
   T.foldl (fun cell p => cellSet E p.2.2 cell p.2.1) cell
 
-theorem cellSet_of_live {E t T0 : Int} {cell : Cell} {v w : Int} (hl : cellGet T0 cell = some v) (ht : t ≤ T0) :
-    cellSet E t cell w = cell := by
-  unfold cellGet at hl
-  unfold cellSet
-  split at hl
-  · cases hl
-  · rename_i x e
-    simp only
-    by_cases he : e > 0
-    · simp only [he, if_true] at hl
-      by_cases h2 : T0 > e
-      · simp [h2] at hl
-      · have : t ≤ e := by omega
-        simp [this]
-    · have : e ≤ 0 := by omega
-      simp [this]
-
 /-- a cell that is live at `T0` refuses every offer made at an instant `≤ T0` -/
 theorem foldSets_of_live {E T0 : Int} {v : Int} : ∀ (R : List (Nat × Int × Int)) (cell : Cell),
     cellGet T0 cell = some v → (∀ p ∈ R, p.2.2 ≤ T0) → foldSets E cell R = cell
@@ -216,7 +199,8 @@ theorem foldSets_of_live {E T0 : Int} {v : Int} : ∀ (R : List (Nat × Int × I
 
 /-- the caller's function has run and its (successful) result has been offered to the cache -/
 def isSet (s : State) (l : Nat) : Prop :=
-  (∃ v, s.pc l = .setDone (.ok v)) ∨ (∃ v, s.pc l = .done (.ok v) ∧ s.src l = some (.exec l))
+  (∃ v, s.pc l = .setDone (.ok v) ∧ s.src l = some (.exec l)) ∨
+  (∃ v, s.pc l = .done (.ok v) ∧ s.src l = some (.exec l))
 
 /-- the caller's function has started and the caller is still the registered call of its key -/
 def activeStarted : PC → Bool
@@ -260,10 +244,10 @@ theorem setsinv_init (cfg : Cfg) (c0 : Nat → Cell) (now : Int) (h0 : 0 ≤ now
   dD := by intro a c' x x' ha; simp [init, activeStarted] at ha
 
 /-- steps that offer nothing and start nothing keep `SetsInv` -/
-theorem setsinv_frame {cfg : Cfg} {c0 : Nat → Cell} {s s' : State} {g g' : EvLog} {h h' : HLog}
+theorem setsinv_frame' {cfg : Cfg} {c0 : Nat → Cell} {s s' : State} {g g' : EvLog} {h h' : HLog}
     (hi : SetsInv cfg c0 s g h) (hsets : h'.sets = h.sets)
     (hset : ∀ l, isSet s' l ↔ isSet s l)
-    (hact : ∀ a, activeStarted (s'.pc a) = true → activeStarted (s.pc a) = true)
+    (hact : ∀ a, activeStarted (s'.pc a) = true → activeStarted (s.pc a) = true ∨ g.startAt a = none)
     (hex : ∀ l, isSet s l → s'.execRes l = s.execRes l)
     (het : ∀ l, isSet s l → g'.endT l = g.endT l)
     (hc : s'.cache = s.cache) (hnow : s.now ≤ s'.now) (hst : g'.startAt = g.startAt) :
@@ -276,7 +260,32 @@ theorem setsinv_frame {cfg : Cfg} {c0 : Nat → Cell} {s s' : State} {g g' : EvL
   · intro l hl; rw [hsets]; exact hi.compl l ((hset l).1 hl)
   · rw [hst, hsets]; exact hi.sorted
   · intro k; rw [hc, hsets]; exact hi.cacheA k
-  · intro a c' x x' ha; rw [hst]; exact hi.dD a c' x x' (hact a ha)
+  · intro a c' x x' ha hne hk hx' hx
+    rw [hst] at hx' hx
+    rcases hact a ha with h1 | h1
+    · exact hi.dD a c' x x' h1 hne hk hx' hx
+    · rw [h1] at hx; cases hx
+
+theorem setsinv_frame {cfg : Cfg} {c0 : Nat → Cell} {s s' : State} {g g' : EvLog} {h h' : HLog}
+    (hi : SetsInv cfg c0 s g h) (hsets : h'.sets = h.sets)
+    (hset : ∀ l, isSet s' l ↔ isSet s l)
+    (hact : ∀ a, activeStarted (s'.pc a) = true → activeStarted (s.pc a) = true)
+    (hex : ∀ l, isSet s l → s'.execRes l = s.execRes l)
+    (het : ∀ l, isSet s l → g'.endT l = g.endT l)
+    (hc : s'.cache = s.cache) (hnow : s.now ≤ s'.now) (hst : g'.startAt = g.startAt) :
+    SetsInv cfg c0 s' g' h' :=
+  setsinv_frame' hi hsets hset (fun a ha => Or.inl (hact a ha)) hex het hc hnow hst
+
+/-- what `histStep` does at a `wake` step: nothing, or the joiner's (virtual) re-read is recorded -/
+theorem histStep_wake (cfg : Cfg) (s : State) (h : HLog) (a : Nat) :
+    histStep cfg s h (.wake a) = h ∨
+    histStep cfg s h (.wake a) = { h with readLen := upd h.readLen a (some h.sets.length) } := by
+  simp only [histStep]
+  split
+  · split
+    · exact Or.inr rfl
+    · exact Or.inl rfl
+  · exact Or.inl rfl
 
 theorem setsinv_step {cfg : Cfg} {c0 : Nat → Cell} {s s' : State} {g : EvLog} {h : HLog} {l : Label}
     (hinv : Inv cfg c0 s) (hsi : SInv cfg s g) (hti : TInv s g) (hi : SetsInv cfg c0 s g h)
@@ -339,14 +348,26 @@ theorem setsinv_step {cfg : Cfg} {c0 : Nat → Cell} {s s' : State} {g : EvLog} 
       intro h; subst h
       have := (published_done (hinv.loc l') hr).1
       rw [hpc] at this; cases this
-    refine setsinv_frame hi rfl ?_ ?_ (fun _ _ => rfl) (fun _ _ => rfl) rfl (Int.le_refl _) rfl
-    · refine isSet_of_others (fun c hc => upd_other _ _ _ _ hc) (fun _ _ => rfl) ?_
-      simp only [isSet, upd_same, hpc, hla.1]
+    have hws : wakeSrc s a l' ≠ some (.exec a) := by
+      intro hw
+      unfold wakeSrc at hw
+      split at hw
+      · cases hw
+      · rw [hla.1] at hw
+        simp only [Option.some.injEq, Src.exec.injEq] at hw
+        exact hne hw
+    have hrw : histStep cfg s h (.wake a) = h ∨
+        histStep cfg s h (.wake a) = { h with readLen := upd h.readLen a (some h.sets.length) } :=
+      histStep_wake cfg s h a
+    refine setsinv_frame hi (by rcases hrw with e | e <;> rw [e]) ?_ ?_ (fun _ _ => rfl) (fun _ _ => rfl) rfl
+      (Int.le_refl _) rfl
+    · refine isSet_of_others (fun c hc => upd_other _ _ _ _ hc) (fun c hc => upd_other _ _ _ _ hc) ?_
+      simp only [isSet, upd_same, hpc]
       constructor
-      · rintro (⟨v, h1⟩ | ⟨v, _, h2⟩)
+      · rintro (⟨v, h1, _⟩ | ⟨v, _, h2⟩)
         · cases h1
-        · simp only [Option.some.injEq, Src.exec.injEq] at h2; exact absurd h2 hne
-      · rintro (⟨v, h1⟩ | ⟨v, h1, _⟩) <;> cases h1
+        · exact absurd h2 hws
+      · rintro (⟨v, h1, _⟩ | ⟨v, h1, _⟩) <;> cases h1
     · intro c hc
       by_cases hca : c = a
       · subst hca; simp [upd_same, activeStarted] at hc
@@ -359,13 +380,13 @@ theorem setsinv_step {cfg : Cfg} {c0 : Nat → Cell} {s s' : State} {g : EvLog} 
     subst hs
     refine setsinv_frame hi rfl ?_ ?_ (fun _ _ => rfl) (fun _ _ => rfl) rfl (Int.le_refl _) rfl
     · refine isSet_of_others (fun c hc => upd_other _ _ _ _ hc) (fun _ _ => rfl) ?_
-      simp only [isSet, upd_same, hpc, hla.1]
+      simp only [isSet, upd_same, hpc]
       constructor
-      · rintro (⟨v, h1⟩ | ⟨v, h1, _⟩)
+      · rintro (⟨v, h1, _⟩ | ⟨v, h1, h2⟩)
         · cases h1
-        · simp only [PC.done.injEq] at h1; exact Or.inl ⟨v, by rw [h1]⟩
-      · rintro (⟨v, h1⟩ | ⟨v, h1, _⟩)
-        · simp only [PC.setDone.injEq] at h1; exact Or.inr ⟨v, by rw [h1], trivial⟩
+        · simp only [PC.done.injEq] at h1; exact Or.inl ⟨v, by rw [h1], h2⟩
+      · rintro (⟨v, h1, h2⟩ | ⟨v, h1, _⟩)
+        · simp only [PC.setDone.injEq] at h1; exact Or.inr ⟨v, by rw [h1], h2⟩
         · cases h1
     · intro c hc
       by_cases hca : c = a
@@ -377,7 +398,7 @@ theorem setsinv_step {cfg : Cfg} {c0 : Nat → Cell} {s s' : State} {g : EvLog} 
     subst hs
     have hna : ∀ x, isSet s x → x ≠ a := by
       intro x hx hxa; subst hxa
-      rcases hx with ⟨v, h1⟩ | ⟨v, h1, _⟩ <;> (rw [hpc] at h1; cases h1)
+      rcases hx with ⟨v, h1, _⟩ | ⟨v, h1, _⟩ <;> (rw [hpc] at h1; cases h1)
     refine setsinv_frame hi rfl ?_ ?_ (fun x hx => upd_other _ _ _ _ (hna x hx)) (fun x hx => upd_other _ _ _ _ (hna x hx))
       rfl (Int.le_refl _) rfl
     · exact isSet_of_others (fun c hc => upd_other _ _ _ _ hc) (fun _ _ => rfl)
@@ -391,10 +412,25 @@ theorem setsinv_step {cfg : Cfg} {c0 : Nat → Cell} {s s' : State} {g : EvLog} 
     subst hs
     exact setsinv_frame hi rfl (fun _ => Iff.rfl) (fun _ hc => hc) (fun _ _ => rfl) (fun _ _ => rfl) rfl
       (by show s.now ≤ s.now + (d : Int); omega) rfl
+  | leadHit a =>
+    simp only [step] at hs; split at hs <;> try (simp at hs)
+    rename_i hpc
+    have hsa := hsi.loc a
+    simp only [SLocal, hpc] at hsa
+    split at hs <;> simp at hs
+    subst hs
+    refine setsinv_frame' hi rfl ?_ ?_ (fun _ _ => rfl) (fun _ _ => rfl) rfl (Int.le_refl _) rfl
+    · exact isSet_of_others (fun c hc => upd_other _ _ _ _ hc) (fun c hc => upd_other _ _ _ _ hc)
+        (by simp [isSet, upd_same, hpc])
+    · intro c hc
+      by_cases hca : c = a
+      · subst hca; exact Or.inr hsa.2.2.1
+      · left; simpa [upd_other _ _ _ _ hca] using hc
   | fnStart a =>
     simp only [step] at hs; split at hs <;> try (simp at hs)
     rename_i hpc
     have hfa := hinv.lead a (by simp [hpc, active])
+    split at hs <;> simp at hs
     have e_pc : s'.pc = upd s.pc a .running := by rw [← hs]
     have e_src : s'.src = s.src := by rw [← hs]
     have e_ex : s'.execRes = s.execRes := by rw [← hs]
@@ -403,7 +439,7 @@ theorem setsinv_step {cfg : Cfg} {c0 : Nat → Cell} {s s' : State} {g : EvLog} 
     clear hs
     have hna : ∀ x, isSet s x → x ≠ a := by
       intro x hx hxa; subst hxa
-      rcases hx with ⟨v, h1⟩ | ⟨v, h1, _⟩ <;> (rw [hpc] at h1; cases h1)
+      rcases hx with ⟨v, h1, _⟩ | ⟨v, h1, _⟩ <;> (rw [hpc] at h1; cases h1)
     have hset : ∀ x, isSet s' x ↔ isSet s x :=
       isSet_of_others (a := a) (fun c hc => by rw [e_pc]; exact upd_other _ _ _ _ hc) (fun c _ => by rw [e_src])
         (by simp [isSet, e_pc, upd_same, hpc])
@@ -456,10 +492,10 @@ theorem setsinv_step {cfg : Cfg} {c0 : Nat → Cell} {s s' : State} {g : EvLog} 
       clear hs
       have hna : ∀ x, isSet s x → x ≠ a := by
         intro x hx hxa; subst hxa
-        rcases hx with ⟨w, h1⟩ | ⟨w, h1, _⟩ <;> (rw [hpc] at h1; cases h1)
+        rcases hx with ⟨w, h1, _⟩ | ⟨w, h1, _⟩ <;> (rw [hpc] at h1; cases h1)
       have hset : ∀ x, isSet s' x ↔ (isSet s x ∨ x = a) :=
         isSet_add (a := a) (fun c hc => by rw [e_pc]; exact upd_other _ _ _ _ hc) (fun c _ => by rw [e_src])
-          (Or.inl ⟨v, by rw [e_pc]; exact upd_same _ _ _⟩)
+          (Or.inl ⟨v, by rw [e_pc]; exact upd_same _ _ _, by rw [e_src]; exact hla.1⟩)
       simp only [histStep, hpc]
       refine ⟨by rw [e_now]; exact hi.now0, ?_, ?_, ?_, ?_, ?_⟩
       · intro p hp
@@ -537,7 +573,9 @@ theorem ordinv_step {cfg : Cfg} {c0 : Nat → Cell} {s s' : State} {g : EvLog} {
     simp only [histStep]
     split <;> exact ⟨hi.mem, hi.sorted, hi.maxIn⟩
   | doFinish a => exact ⟨hi.mem, hi.sorted, hi.maxIn⟩
-  | wake a => exact ⟨hi.mem, hi.sorted, hi.maxIn⟩
+  | leadHit a => exact ⟨hi.mem, hi.sorted, hi.maxIn⟩
+  | wake a =>
+    rcases histStep_wake cfg s h a with e | e <;> rw [e] <;> exact ⟨hi.mem, hi.sorted, hi.maxIn⟩
   | tick d => exact ⟨hi.mem, hi.sorted, hi.maxIn⟩
   | fnStart a =>
     simp only [step] at hs; split at hs <;> try (simp at hs)
@@ -595,6 +633,7 @@ theorem ordinv_step {cfg : Cfg} {c0 : Nat → Cell} {s s' : State} {g : EvLog} {
 
 def hitVal : Option Src → Option Int
   | some (.hit v) => some v
+  | some (.lhit _ v) => some v
   | _ => none
 
 /-- the offers for `c`'s key among the first `m` offers -/
@@ -605,7 +644,9 @@ structure ReadInv (cfg : Cfg) (c0 : Nat → Cell) (s : State) (g : EvLog) (h : H
   idle : ∀ c, (s.pc c = .idle ∨ s.pc c = .start) → h.readLen c = none
   has : ∀ c, s.pc c ≠ .idle → s.pc c ≠ .start → ∃ m, h.readLen c = some m
   /-- the caller's `cacheCheck` read, at the caller's invocation instant, the cell produced by the offers
-  made so far for its key; it hit iff that cell was live -/
+  made so far for its key; it hit iff that cell was live.  For a caller served the value its flight's
+  leader read at its re-check, the read is that re-check (the leader) resp. the hand-over (a joiner), both
+  at the caller's invocation instant too: `readLen` is overwritten there (`Model/C17.lean: histStep`) -/
   fact : ∀ c m, h.readLen c = some m → m ≤ h.sets.length ∧ ∃ ti, g.invT c = some ti ∧
           cellGet ti (foldSets cfg.expTime (c0 (cfg.key c)) (offersSeen cfg h c m)) = hitVal (s.src c)
   /-- a successful execution one of whose callers had returned before `c` was invoked had made its offer
@@ -613,7 +654,7 @@ structure ReadInv (cfg : Cfg) (c0 : Nat → Cell) (s : State) (g : EvLog) (h : H
   known : ∀ c m r l tr i v, h.readLen c = some m → g.retAt r = some tr → g.invAt c = some i → tr < i →
           s.src r = some (.exec l) → s.execRes l = some (.ok v) → ∃ p ∈ h.sets.take m, p.1 = l
   /-- the executions whose offers a hit saw had ended before the hit returned -/
-  hitEnd : ∀ c m t v, h.readLen c = some m → s.src c = some (.hit v) → g.retAt c = some t →
+  hitEnd : ∀ c m t v, h.readLen c = some m → hitVal (s.src c) = some v → g.retAt c = some t →
           ∀ p ∈ h.sets.take m, ∃ b, g.endAt p.1 = some b ∧ b < t
   /-- the offers a caller's `cacheCheck` saw had been made no later than the caller's invocation instant -/
   seenTime : ∀ c m ti, h.readLen c = some m → g.invT c = some ti → ∀ p ∈ h.sets.take m, p.2.2 ≤ ti
@@ -641,8 +682,9 @@ theorem readinv_frame {cfg : Cfg} {c0 : Nat → Cell} {s s' : State} {g g' : EvL
     (hknown : ∀ c m r l tr i v, h.readLen c = some m → g'.retAt r = some tr → g'.invAt c = some i → tr < i →
         s'.src r = some (.exec l) → s'.execRes l = some (.ok v) →
         (g.retAt r = some tr ∧ g.invAt c = some i ∧ s.src r = some (.exec l) ∧ s.execRes l = some (.ok v)))
-    (hhit : ∀ c m t v, h.readLen c = some m → s'.src c = some (.hit v) → g'.retAt c = some t →
-        (s.src c = some (.hit v) ∧ g.retAt c = some t))
+    (hhit : ∀ c m t v, h.readLen c = some m → hitVal (s'.src c) = some v → g'.retAt c = some t →
+        (hitVal (s.src c) = some v ∧ g.retAt c = some t) ∨ (∀ l b, g.endAt l = some b → b < t))
+    (hsend : ∀ p ∈ h.sets, ∃ b, g.endAt p.1 = some b)
     (hend : ∀ l b, g.endAt l = some b → g'.endAt l = some b) :
     ReadInv cfg c0 s' g' h' := by
   have htake : ∀ m, m ≤ h.sets.length → h'.sets.take m = h.sets.take m := by
@@ -665,10 +707,12 @@ theorem readinv_frame {cfg : Cfg} {c0 : Nat → Cell} {s s' : State} {g g' : EvL
     exact hi.known c m r l tr i v hm k1 k2 h3 k3 k4
   · intro c m t v hm h1 h2 p hp
     rw [hrl] at hm
-    obtain ⟨k1, k2⟩ := hhit c m t v hm h1 h2
     rw [htake m (hi.fact c m hm).1] at hp
-    obtain ⟨b, hb, hbt⟩ := hi.hitEnd c m t v hm k1 k2 p hp
-    exact ⟨b, hend _ _ hb, hbt⟩
+    rcases hhit c m t v hm h1 h2 with ⟨k1, k2⟩ | k
+    · obtain ⟨b, hb, hbt⟩ := hi.hitEnd c m t v hm k1 k2 p hp
+      exact ⟨b, hend _ _ hb, hbt⟩
+    · obtain ⟨b, hb⟩ := hsend p (List.mem_of_mem_take hp)
+      exact ⟨b, hend _ _ hb, k _ b hb⟩
   · intro c m ti hm h1 p hp
     rw [hrl] at hm
     rw [hinvT c m hm] at h1
@@ -690,10 +734,11 @@ theorem ret_done {cfg : Cfg} {s : State} {g : EvLog} (hsi : SInv cfg s g) (r tr 
   | ran z => simp only [hp] at hl; rw [hl.2] at h; cases h
   | setDone z => simp only [hp] at hl; rw [hl.2] at h; cases h
 
-theorem published' {cfg : Cfg} {s : State} {l : Nat} {r : Res} (hl : Local cfg s l) (hr : s.result l = some r) :
-    s.execRes l = some r := by
-  unfold Local at hl
-  split at hl <;> simp_all
+theorem published' {cfg : Cfg} {s : State} {l : Nat} {r : Res} (hl : Local cfg s l) (hr : s.result l = some r)
+    (hs : s.src l = some (.exec l)) : s.execRes l = some r := by
+  rcases (published_cases hl hr).2 with ⟨_, _, h⟩ | ⟨v, _, h, _⟩
+  · exact h
+  · rw [hs] at h; cases h
 
 /-- the execution a returned caller was served by has published its result: if it succeeded, its offer
 to the cache has been made -/
@@ -701,16 +746,18 @@ theorem served_isSet {cfg : Cfg} {c0 : Nat → Cell} {s : State} (hinv : Inv cfg
     (hd : s.pc r = .done x) (hs : s.src r = some (.exec l)) (he : s.execRes l = some (.ok v)) : isSet s l := by
   have h := hinv.loc r
   simp only [Local, hd] at h
-  rcases h with ⟨w, _, h2, _⟩ | ⟨h2, _, h3, _⟩ | ⟨y, h2, _, h3, _⟩
+  rcases h with ⟨w, _, h2, _⟩ | ⟨h2, _, h3, _⟩ | ⟨y, h2, _, h3, _, _, _, h7⟩ | ⟨w, _, h2, _⟩ | ⟨y, w, _, h2, _⟩
   · rw [hs] at h2; cases h2
   · rw [hs] at h2; cases h2
     rw [he] at h3; cases h3
     exact Or.inr ⟨v, hd, hs⟩
   · rw [hs] at h2; cases h2
-    obtain ⟨k1, k2⟩ := published_done (hinv.loc l) h3
-    have k3 := published' (hinv.loc l) h3
+    obtain ⟨k1, _⟩ := published_done (hinv.loc l) h3
+    have k3 := published' (hinv.loc l) h3 h7
     rw [he] at k3; cases k3
-    exact Or.inr ⟨v, k1, k2⟩
+    exact Or.inr ⟨v, k1, h7⟩
+  · rw [hs] at h2; cases h2
+  · rw [hs] at h2; cases h2
 
 /-- the `cacheCheck` step of caller `a`, described by what it changes -/
 theorem readinv_check {cfg : Cfg} {c0 : Nat → Cell} {s s' : State} {g g' : EvLog} {h h' : HLog} (a : Nat)
@@ -721,7 +768,6 @@ theorem readinv_check {cfg : Cfg} {c0 : Nat → Cell} {s s' : State} {g g' : EvL
     (e_invT : g'.invT = g.invT) (e_invAt : g'.invAt = g.invAt) (e_endAt : g'.endAt = g.endAt)
     (e_ret : ∀ c, c ≠ a → g'.retAt c = g.retAt c) (e_reta : ∀ t, g'.retAt a = some t → t = g.n)
     (hbnd : ∀ c i, g.invAt c = some i → i < g.n)
-    (hsrca : ∀ l, s'.src a ≠ some (.exec l))
     (hfactA : ∃ ti, g.invT a = some ti ∧
         cellGet ti (foldSets cfg.expTime (c0 (cfg.key a))
           (h.sets.filter (fun p => cfg.key p.1 == cfg.key a))) = hitVal (s'.src a))
@@ -808,7 +854,7 @@ theorem readinv_check {cfg : Cfg} {c0 : Nat → Cell} {s s' : State} {g g' : EvL
       exact hi.seenTime c m ti hm h1 p hp
 
 theorem readinv_step {cfg : Cfg} {c0 : Nat → Cell} {s s' : State} {g : EvLog} {h : HLog} {l : Label}
-    (hinv : Inv cfg c0 s) (hsi : SInv cfg s g) (hti : TInv s g) (hse : SetsInv cfg c0 s g h)
+    (hinv : Inv cfg c0 s) (hsi : SInv cfg s g) (hti : TInv s g) (hl : LInv cfg s g) (hse : SetsInv cfg c0 s g h)
     (hi : ReadInv cfg c0 s g h) (hs : step cfg s l = some s') :
     ReadInv cfg c0 s' (logStep cfg s g l) (histStep cfg s h l) := by
   have keep_end : ∀ (a : Nat), g.endAt a = none → ∀ x b, g.endAt x = some b →
@@ -817,13 +863,36 @@ theorem readinv_step {cfg : Cfg} {c0 : Nat → Cell} {s s' : State} {g : EvLog} 
     by_cases hxa : x = a
     · subst hxa; rw [ha] at hx; cases hx
     · rw [upd_other _ _ _ _ hxa]; exact hx
+  have hsend : ∀ p ∈ h.sets, ∃ b, g.endAt p.1 = some b := fun p hp =>
+    execRes_logged hinv hsi (hse.fact p hp).1
+  have hbEnd : ∀ l b, g.endAt l = some b → b < g.n := fun l b hb => hsi.bnd l b (Or.inr (Or.inr (Or.inr hb)))
+  -- what a caller reads when it reads the cache cell of its key now, at its invocation instant
+  have hknownG : ∀ (a : Nat) r l tr i v, g.retAt r = some tr → g.invAt a = some i → tr < i →
+      s.src r = some (.exec l) → s.execRes l = some (.ok v) → ∃ p ∈ h.sets, p.1 = l := by
+    intro _ r l tr i v h1 _ _ h4 h5
+    obtain ⟨x, hx⟩ := ret_done hsi r tr h1
+    exact hse.compl l (served_isSet hinv r l x v hx h4 h5)
+  have hhitG : ∀ p ∈ h.sets, ∃ b, g.endAt p.1 = some b ∧ b < g.n := by
+    intro p hp
+    obtain ⟨b, hb⟩ := hsend p hp
+    exact ⟨b, hb, hbEnd _ b hb⟩
+  have hfactG : ∀ (a : Nat), g.invT a = some s.now → ∀ (src' : Option Src),
+      hitVal src' = cellGet s.now (s.cache (cfg.key a)) →
+      ∃ ti, g.invT a = some ti ∧ cellGet ti (foldSets cfg.expTime (c0 (cfg.key a))
+        (h.sets.filter (fun p => cfg.key p.1 == cfg.key a))) = hitVal src' := by
+    intro a hta src' hsv
+    exact ⟨s.now, hta, by rw [← hse.cacheA (cfg.key a), hsv]⟩
+  have hseenG : ∀ (a : Nat), g.invT a = some s.now → ∀ ti, g.invT a = some ti → ∀ p ∈ h.sets, p.2.2 ≤ ti := by
+    intro a hta ti h1 p hp
+    rw [hta] at h1; cases h1
+    exact (hse.fact p hp).2.2.2.1
   cases l with
   | invoke a =>
     simp only [step] at hs; split at hs <;> try (simp at hs)
     rename_i hpc
     subst hs
     have hra := hi.idle a (Or.inl hpc)
-    refine readinv_frame hi rfl [] (by simp [histStep]) ?_ ?_ ?_ (fun _ _ _ => rfl) ?_ ?_ (fun _ _ hb => hb)
+    refine readinv_frame hi rfl [] (by simp [histStep]) ?_ ?_ ?_ (fun _ _ _ => rfl) ?_ ?_ hsend (fun _ _ hb => hb)
     · intro c hc
       by_cases hca : c = a
       · subst hca; exact Or.inl hpc
@@ -839,7 +908,7 @@ theorem readinv_step {cfg : Cfg} {c0 : Nat → Cell} {s s' : State} {g : EvLog} 
       have hca : c ≠ a := by intro hca; subst hca; rw [hra] at hm; cases hm
       simp only [logStep, upd_other _ _ _ _ hca] at h2
       exact ⟨h1, h2, h4, h5⟩
-    · intro c m t v hm h1 h2; exact ⟨h1, h2⟩
+    · intro c m t v hm h1 h2; exact Or.inl ⟨h1, h2⟩
   | doEnter a =>
     simp only [step] at hs; split at hs <;> try (simp at hs)
     rename_i hpc
@@ -849,7 +918,7 @@ theorem readinv_step {cfg : Cfg} {c0 : Nat → Cell} {s s' : State} {g : EvLog} 
     simp only [SLocal, hpc] at hsa
     split at hs <;> simp at hs <;> subst hs
     all_goals
-      refine readinv_frame hi rfl [] (by simp [histStep]) ?_ ?_ (fun _ _ _ => rfl) ?_ ?_ ?_ (fun _ _ hb => hb)
+      refine readinv_frame hi rfl [] (by simp [histStep]) ?_ ?_ (fun _ _ _ => rfl) ?_ ?_ ?_ hsend (fun _ _ hb => hb)
       · intro c hc
         by_cases hca : c = a
         · subst hca; simp [upd_same] at hc
@@ -872,12 +941,32 @@ theorem readinv_step {cfg : Cfg} {c0 : Nat → Cell} {s s' : State} {g : EvLog} 
         replace h2 : g.retAt c = some t := h2
         have hca : c ≠ a := by intro h; subst h; rw [hsa.2.1] at h2; cases h2
         simp only [upd_other _ _ _ _ hca] at h1
-        exact ⟨h1, h2⟩
+        exact Or.inl ⟨h1, h2⟩
+  | leadHit a =>
+    simp only [step] at hs; split at hs <;> try (simp at hs)
+    rename_i hpc
+    have hsa := hsi.loc a
+    simp only [SLocal, hpc] at hsa
+    have hta := hti.loc a
+    simp only [TLocal, hpc] at hta
+    split at hs <;> simp at hs
+    rename_i v hv
+    subst hs
+    refine readinv_check a hi rfl rfl (fun c hc => upd_other _ _ _ _ hc) (by simp [upd_same])
+      (fun c hc => upd_other _ _ _ _ hc) rfl rfl rfl rfl (fun _ _ => rfl) ?_
+      (fun c i hci => hsi.bnd c i (Or.inl hci)) ?_ (hknownG a) hhitG (hseenG a hta)
+    · intro t ht
+      have ht' : g.retAt a = some t := ht
+      rw [hsa.2.1] at ht'; cases ht'
+    · have : hitVal (upd s.src a (some (Src.lhit a v)) a) = cellGet s.now (s.cache (cfg.key a)) := by
+        rw [upd_same, hv]; rfl
+      exact hfactG a hta _ this
   | fnStart a =>
     simp only [step] at hs; split at hs <;> try (simp at hs)
     rename_i hpc
+    split at hs <;> simp at hs
     subst hs
-    refine readinv_frame hi rfl [] (by simp [histStep]) ?_ ?_ (fun _ _ _ => rfl) (fun _ _ _ => rfl) ?_ ?_
+    refine readinv_frame hi rfl [] (by simp [histStep]) ?_ ?_ (fun _ _ _ => rfl) (fun _ _ _ => rfl) ?_ ?_ hsend
       (fun _ _ hb => hb)
     · intro c hc
       by_cases hca : c = a
@@ -888,14 +977,14 @@ theorem readinv_step {cfg : Cfg} {c0 : Nat → Cell} {s s' : State} {g : EvLog} 
       · subst hca; simp [hpc]
       · simpa [upd_other _ _ _ _ hca] using And.intro h1 h2
     · intro c m r l tr i v hm h1 h2 h3 h4 h5; exact ⟨h1, h2, h4, h5⟩
-    · intro c m t v hm h1 h2; exact ⟨h1, h2⟩
+    · intro c m t v hm h1 h2; exact Or.inl ⟨h1, h2⟩
   | fnEnd a r0 =>
     simp only [step] at hs; split at hs <;> try (simp at hs)
     rename_i hpc
     have hsa := hsi.loc a
     simp only [SLocal, hpc] at hsa
     subst hs
-    refine readinv_frame hi rfl [] (by simp [histStep]) ?_ ?_ (fun _ _ _ => rfl) (fun _ _ _ => rfl) ?_ ?_
+    refine readinv_frame hi rfl [] (by simp [histStep]) ?_ ?_ (fun _ _ _ => rfl) (fun _ _ _ => rfl) ?_ ?_ hsend
       (keep_end a hsa.2.2)
     · intro c hc
       by_cases hca : c = a
@@ -911,21 +1000,23 @@ theorem readinv_step {cfg : Cfg} {c0 : Nat → Cell} {s s' : State} {g : EvLog} 
         obtain ⟨x, hx⟩ := ret_done hsi r tr h1
         have hl' := hinv.loc r
         simp only [Local, hx] at hl'
-        rcases hl' with ⟨w, _, k2, _⟩ | ⟨k2, _⟩ | ⟨y, k2, _, k3, _⟩
+        rcases hl' with ⟨w, _, k2, _⟩ | ⟨k2, _⟩ | ⟨y, k2, _, k3, _⟩ | ⟨w, _, k2, _⟩ | ⟨y, w, _, k2, _⟩
         · rw [h4] at k2; cases k2
         · rw [h4] at k2; cases k2; rw [hpc] at hx; cases hx
         · rw [h4] at k2; cases k2
           have := (published_done (hinv.loc l) k3).1
           rw [hpc] at this; cases this
+        · rw [h4] at k2; cases k2
+        · rw [h4] at k2; cases k2
       simp only [upd_other _ _ _ _ hla] at h5
       exact ⟨h1, h2, h4, h5⟩
-    · intro c m t v hm h1 h2; exact ⟨h1, h2⟩
+    · intro c m t v hm h1 h2; exact Or.inl ⟨h1, h2⟩
   | cacheSet a =>
     simp only [step] at hs; split at hs <;> try (simp at hs)
     · rename_i v hpc
       subst hs
       refine readinv_frame hi (by simp [histStep, hpc]) [(a, v, s.now)] (by simp [histStep, hpc]) ?_ ?_ (fun _ _ _ => rfl)
-        (fun _ _ _ => rfl) ?_ ?_ (fun _ _ hb => hb)
+        (fun _ _ _ => rfl) ?_ ?_ hsend (fun _ _ hb => hb)
       · intro c hc
         by_cases hca : c = a
         · subst hca; simp [upd_same] at hc
@@ -935,11 +1026,11 @@ theorem readinv_step {cfg : Cfg} {c0 : Nat → Cell} {s s' : State} {g : EvLog} 
         · subst hca; simp [hpc]
         · simpa [upd_other _ _ _ _ hca] using And.intro h1 h2
       · intro c m r l tr i v' hm h1 h2 h3 h4 h5; exact ⟨h1, h2, h4, h5⟩
-      · intro c m t v' hm h1 h2; exact ⟨h1, h2⟩
+      · intro c m t v' hm h1 h2; exact Or.inl ⟨h1, h2⟩
     · rename_i hpc
       subst hs
       refine readinv_frame hi (by simp [histStep, hpc]) [] (by simp [histStep, hpc]) ?_ ?_ (fun _ _ _ => rfl)
-        (fun _ _ _ => rfl) ?_ ?_ (fun _ _ hb => hb)
+        (fun _ _ _ => rfl) ?_ ?_ hsend (fun _ _ hb => hb)
       · intro c hc
         by_cases hca : c = a
         · subst hca; simp [upd_same] at hc
@@ -949,16 +1040,14 @@ theorem readinv_step {cfg : Cfg} {c0 : Nat → Cell} {s s' : State} {g : EvLog} 
         · subst hca; simp [hpc]
         · simpa [upd_other _ _ _ _ hca] using And.intro h1 h2
       · intro c m r l tr i v' hm h1 h2 h3 h4 h5; exact ⟨h1, h2, h4, h5⟩
-      · intro c m t v' hm h1 h2; exact ⟨h1, h2⟩
+      · intro c m t v' hm h1 h2; exact Or.inl ⟨h1, h2⟩
   | doFinish a =>
     simp only [step] at hs; split at hs <;> try (simp at hs)
     rename_i r0 hpc
-    have hla := hinv.loc a
-    simp only [Local, hpc] at hla
     have hsa := hsi.loc a
     simp only [SLocal, hpc] at hsa
     subst hs
-    refine readinv_frame hi rfl [] (by simp [histStep]) ?_ ?_ (fun _ _ _ => rfl) (fun _ _ _ => rfl) ?_ ?_
+    refine readinv_frame hi rfl [] (by simp [histStep]) ?_ ?_ (fun _ _ _ => rfl) (fun _ _ _ => rfl) ?_ ?_ hsend
       (fun _ _ hb => hb)
     · intro c hc
       by_cases hca : c = a
@@ -978,45 +1067,77 @@ theorem readinv_step {cfg : Cfg} {c0 : Nat → Cell} {s s' : State} {g : EvLog} 
       exact ⟨h1, h2, h4, h5⟩
     · intro c m t v hm h1 h2
       simp only [logStep] at h2
-      have hca : c ≠ a := by intro hc; subst hc; rw [hla.1] at h1; cases h1
-      rw [upd_other _ _ _ _ hca] at h2
-      exact ⟨h1, h2⟩
+      by_cases hca : c = a
+      · -- the leader whose re-check hit the cache returns: everything in the log is earlier
+        subst hca
+        rw [upd_same] at h2; cases h2
+        exact Or.inr hbEnd
+      · rw [upd_other _ _ _ _ hca] at h2
+        exact Or.inl ⟨h1, h2⟩
   | wake a =>
     simp only [step] at hs; split at hs <;> try (simp at hs)
     rename_i l0 hpc
     have hla := hinv.loc a
     simp only [Local, hpc] at hla
+    have hsa := hsi.loc a
+    simp only [SLocal, hpc] at hsa
     split at hs <;> simp at hs
+    rename_i r0 hr0
     subst hs
-    refine readinv_frame hi rfl [] (by simp [histStep]) ?_ ?_ (fun _ _ _ => rfl) (fun _ _ _ => rfl) ?_ ?_
-      (fun _ _ hb => hb)
-    · intro c hc
-      by_cases hca : c = a
-      · subst hca; simp [upd_same] at hc
-      · simpa [upd_other _ _ _ _ hca] using hc
-    · intro c h1 h2
-      by_cases hca : c = a
-      · subst hca; simp [hpc]
-      · simpa [upd_other _ _ _ _ hca] using And.intro h1 h2
-    · intro c m r l tr i v hm h1 h2 h3 h4 h5
-      simp only [logStep] at h1 h2
-      have hra : r ≠ a := by
-        intro hr; subst hr
-        rw [upd_same] at h1; cases h1
-        have := hsi.bnd c i (Or.inl h2); omega
-      rw [upd_other _ _ _ _ hra] at h1
-      exact ⟨h1, h2, h4, h5⟩
-    · intro c m t v hm h1 h2
-      simp only [logStep] at h2
-      have hca : c ≠ a := by intro hc; subst hc; rw [hla.1] at h1; cases h1
-      rw [upd_other _ _ _ _ hca] at h2
-      exact ⟨h1, h2⟩
+    rcases (published_done (hinv.loc l0) hr0).2 with hsl | ⟨v, _, hsl⟩
+    · -- woken by a leader that ran the function
+      have e1 : wakeSrc s a l0 = some (.exec l0) := by simp only [wakeSrc, hsl]; exact hla.1
+      have e2 : histStep cfg s h (.wake a) = h := by simp only [histStep, hpc, hsl]
+      rw [e2]
+      refine readinv_frame hi rfl [] (by simp) ?_ ?_ (fun _ _ _ => rfl) ?_ ?_ ?_ hsend (fun _ _ hb => hb)
+      · intro c hc
+        by_cases hca : c = a
+        · subst hca; simp [upd_same] at hc
+        · simpa [upd_other _ _ _ _ hca] using hc
+      · intro c h1 h2
+        by_cases hca : c = a
+        · subst hca; simp [hpc]
+        · simpa [upd_other _ _ _ _ hca] using And.intro h1 h2
+      · intro c m hm
+        by_cases hca : c = a
+        · subst hca; simp [upd_same, e1, hla.1, hitVal]
+        · simp [upd_other _ _ _ _ hca]
+      · intro c m r l tr i v hm h1 h2 h3 h4 h5
+        simp only [logStep] at h1 h2
+        have hra : r ≠ a := by
+          intro hr; subst hr
+          rw [upd_same] at h1; cases h1
+          have := hsi.bnd c i (Or.inl h2); omega
+        rw [upd_other _ _ _ _ hra] at h1
+        simp only [upd_other _ _ _ _ hra] at h4
+        exact ⟨h1, h2, h4, h5⟩
+      · intro c m t v hm h1 h2
+        simp only [logStep] at h2
+        have hca : c ≠ a := by intro hc; subst hc; simp [upd_same, e1, hitVal] at h1
+        rw [upd_other _ _ _ _ hca] at h2
+        simp only [upd_other _ _ _ _ hca] at h1
+        exact Or.inl ⟨h1, h2⟩
+    · -- woken by a leader whose re-check hit the cache: the value is still live (a virtual re-read)
+      have e1 : wakeSrc s a l0 = some (.lhit l0 v) := by simp only [wakeSrc, hsl]
+      have e2 : histStep cfg s h (.wake a) = { h with readLen := upd h.readLen a (some h.sets.length) } := by
+        simp only [histStep, hpc, hsl]
+      obtain ⟨hta, hlive⟩ := hl.wait a l0 v hpc hsl
+      rw [e2]
+      refine readinv_check a hi rfl rfl (fun c hc => upd_other _ _ _ _ hc) (by simp [upd_same])
+        (fun c hc => upd_other _ _ _ _ hc) rfl rfl rfl rfl (fun c hc => upd_other _ _ _ _ hc) ?_
+        (fun c i hci => hsi.bnd c i (Or.inl hci)) ?_ (hknownG a) hhitG (hseenG a hta)
+      · intro t ht
+        have ht' : upd g.retAt a (some g.n) a = some t := ht
+        rw [upd_same] at ht'; cases ht'; rfl
+      · have : hitVal (upd s.src a (wakeSrc s a l0) a) = cellGet s.now (s.cache (cfg.key a)) := by
+          rw [upd_same, e1, hlive]; rfl
+        exact hfactG a hta _ this
   | tick d =>
     simp only [step, Option.some.injEq] at hs
     subst hs
     exact readinv_frame hi rfl [] (by simp [histStep]) (fun _ hc => hc) (fun _ h1 h2 => ⟨h1, h2⟩)
       (fun _ _ _ => rfl) (fun _ _ _ => rfl) (fun _ _ _ _ _ _ _ _ h1 h2 _ h4 h5 => ⟨h1, h2, h4, h5⟩)
-      (fun _ _ _ _ _ h1 h2 => ⟨h1, h2⟩) (fun _ _ hb => hb)
+      (fun _ _ _ _ _ h1 h2 => Or.inl ⟨h1, h2⟩) hsend (fun _ _ hb => hb)
   | cacheCheck a =>
     simp only [step] at hs; split at hs <;> try (simp at hs)
     rename_i hpc
@@ -1026,66 +1147,29 @@ theorem readinv_step {cfg : Cfg} {c0 : Nat → Cell} {s s' : State} {g : EvLog} 
     simp only [SLocal, hpc] at hsa
     have hta := hti.loc a
     simp only [TLocal, hpc] at hta
-    have hcell := hse.cacheA (cfg.key a)
-    -- what `a` reads now
-    have hread : ∀ (src' : Option Src), hitVal src' = cellGet s.now (s.cache (cfg.key a)) →
-        cellGet s.now (foldSets cfg.expTime (c0 (cfg.key a))
-          ((h.sets.take h.sets.length).filter (fun p => cfg.key p.1 == cfg.key a))) = hitVal src' := by
-      intro src' hsv
-      rw [List.take_length, ← hcell, hsv]
-    have hknownA : ∀ r l tr i v, g.retAt r = some tr → g.invAt a = some i → tr < i →
-        s.src r = some (.exec l) → s.execRes l = some (.ok v) → ∃ p ∈ h.sets.take h.sets.length, p.1 = l := by
-      intro r l tr i v h1 _ _ h4 h5
-      obtain ⟨x, hx⟩ := ret_done hsi r tr h1
-      rw [List.take_length]
-      exact hse.compl l (served_isSet hinv r l x v hx h4 h5)
-    have hhitA : ∀ p ∈ h.sets, ∃ b, g.endAt p.1 = some b ∧ b < g.n := by
-      intro p hp
-      obtain ⟨b, hb⟩ := execRes_logged hinv hsi (hse.fact p hp).1
-      exact ⟨b, hb, hsi.bnd _ b (Or.inr (Or.inr (Or.inr hb)))⟩
-    have hknownA' : ∀ r l tr i v, g.retAt r = some tr → g.invAt a = some i → tr < i →
-        s.src r = some (.exec l) → s.execRes l = some (.ok v) → ∃ p ∈ h.sets, p.1 = l := by
-      intro r l tr i v h1 h2 h3 h4 h5
-      have := hknownA r l tr i v h1 h2 h3 h4 h5
-      rwa [List.take_length] at this
-    have hfact : ∀ (src' : Option Src), hitVal src' = cellGet s.now (s.cache (cfg.key a)) →
-        ∃ ti, g.invT a = some ti ∧ cellGet ti (foldSets cfg.expTime (c0 (cfg.key a))
-          (h.sets.filter (fun p => cfg.key p.1 == cfg.key a))) = hitVal src' := by
-      intro src' hsv
-      exact ⟨s.now, hta, by rw [← hcell, hsv]⟩
-    have hseenA : ∀ ti, g.invT a = some ti → ∀ p ∈ h.sets, p.2.2 ≤ ti := by
-      intro ti h1 p hp
-      rw [hta] at h1; cases h1
-      exact (hse.fact p hp).2.2.2.1
     split at hs <;> simp at hs <;> subst hs
     · rename_i v hv
       simp only [logStep, hv]
       refine readinv_check a hi rfl rfl (fun c hc => upd_other _ _ _ _ hc) (by simp [upd_same])
         (fun c hc => upd_other _ _ _ _ hc) rfl rfl rfl rfl (fun c hc => upd_other _ _ _ _ hc) ?_
-        (fun c i hci => hsi.bnd c i (Or.inl hci)) ?_ ?_ hknownA' hhitA hseenA
+        (fun c i hci => hsi.bnd c i (Or.inl hci)) ?_ (hknownG a) hhitG (hseenG a hta)
       · intro t ht
         have ht' : upd g.retAt a (some g.n) a = some t := ht
         rw [upd_same] at ht'; cases ht'; rfl
-      · intro l hl
-        have hl' : upd s.src a (some (Src.hit v)) a = some (Src.exec l) := hl
-        rw [upd_same] at hl'; cases hl'
       · have : hitVal (upd s.src a (some (Src.hit v)) a) = cellGet s.now (s.cache (cfg.key a)) := by
           rw [upd_same, hv]; rfl
-        exact hfact _ this
+        exact hfactG a hta _ this
     · rename_i hv
       simp only [logStep, hv]
       refine readinv_check a hi rfl rfl (fun c hc => upd_other _ _ _ _ hc) (by simp [upd_same])
         (fun _ _ => rfl) rfl rfl rfl rfl (fun _ _ => rfl) ?_
-        (fun c i hci => hsi.bnd c i (Or.inl hci)) ?_ ?_ hknownA' hhitA hseenA
+        (fun c i hci => hsi.bnd c i (Or.inl hci)) ?_ (hknownG a) hhitG (hseenG a hta)
       · intro t ht
         have ht' : g.retAt a = some t := ht
         rw [hsa.2.1] at ht'; cases ht'
-      · intro l hl
-        have hl' : s.src a = some (Src.exec l) := hl
-        rw [hla.1] at hl'; cases hl'
       · have : hitVal (s.src a) = cellGet s.now (s.cache (cfg.key a)) := by
           rw [hla.1, hv]; rfl
-        exact hfact _ this
+        exact hfactG a hta _ this
 
 /-! ## all invariants on every run under the virtual clock -/
 
@@ -1099,6 +1183,7 @@ structure AllInv (cfg : Cfg) (c0 : Nat → Cell) (s : State) (g : EvLog) (h : HL
   inv : Inv cfg c0 s
   sinv : SInv cfg s g
   tinv : TInv s g
+  linv : LInv cfg s g
   sets : SetsInv cfg c0 s g h
   ord : OrdInv g h
   read : ReadInv cfg c0 s g h
@@ -1107,11 +1192,11 @@ theorem allinv_reachable {cfg : Cfg} {c0 : Nat → Cell} {now : Int} {s : State}
     (h0 : 0 ≤ now) (hr : ReachableH cfg (init c0 now) s g h) : AllInv cfg c0 s g h := by
   induction hr with
   | refl =>
-    exact ⟨inv_init cfg c0 now, sinv_init cfg c0 now, tinv_init c0 now, setsinv_init cfg c0 now h0,
-      ordinv_init, readinv_init cfg c0 now⟩
+    exact ⟨inv_init cfg c0 now, sinv_init cfg c0 now, tinv_init c0 now, linv_init cfg c0 now,
+      setsinv_init cfg c0 now h0, ordinv_init, readinv_init cfg c0 now⟩
   | step l _ hs hp ih =>
-    obtain ⟨i1, i2, i3, i4, i5, i6⟩ := ih
-    exact ⟨inv_step i1 hs, sinv_step i1 i2 hs, tinv_step i1 i2 i3 hs hp, setsinv_step i1 i2 i3 i4 hs,
-      ordinv_step i1 i2 i5 hs, readinv_step i1 i2 i3 i4 i6 hs⟩
+    obtain ⟨i1, i2, i3, i7, i4, i5, i6⟩ := ih
+    exact ⟨inv_step i1 hs, sinv_step i1 i2 hs, tinv_step i1 i2 i3 i7 hs hp, linv_step i1 i2 i3 i7 hs hp,
+      setsinv_step i1 i2 i3 i4 hs, ordinv_step i1 i2 i5 hs, readinv_step i1 i2 i3 i7 i4 i6 hs⟩
 
 end GoguVerif.Lemmas.C17
